@@ -181,7 +181,30 @@ def h_constants(c):
     return {"Id": enc_lpoly(M.Id), "w": enc_lpoly(M.w), "iX": enc_lalg(M.iX)}
 
 
-HANDLERS = {"pexpr": h_pexpr, "gexpr": h_gexpr, "constants": h_constants}
+def h_from_angles(c):
+    from pyqsp.LPoly import LAlg
+    ph = dec(c["phases"])
+    g = LAlg.unitary_from_angles(ph)
+    r = enc_lalg(g)
+    r["cs"] = [[enc(numpy.cos(t)), enc(numpy.sin(t))] for t in ph]
+    r["unitarity"] = enc(g.unitarity)
+    r["degree"] = int(g.degree)
+    return r
+
+
+def h_readout_angle(c):
+    from pyqsp.LPoly import LAlg
+    return enc(LAlg.rotation(dec(c["t"])).angle)
+
+
+def h_readout_lr(c):
+    from pyqsp.LPoly import LAlg, w
+    g = LAlg.rotation(dec(c["a"])) * w * LAlg.rotation(dec(c["b"]))
+    return enc(g.left_and_right_angles)
+
+
+HANDLERS = {"pexpr": h_pexpr, "gexpr": h_gexpr, "constants": h_constants, "from_angles": h_from_angles,
+            "readout_angle": h_readout_angle, "readout_lr": h_readout_lr}
 
 try:
     import impl_handlers2
